@@ -24,6 +24,7 @@ import (
 	"os"
 	"runtime"
 	"sort"
+	"strconv"
 	"strings"
 	"sync"
 	"time"
@@ -72,6 +73,11 @@ func main() {
 		c.Budget(150 * time.Second)
 	} else {
 		c.Budget(20 * time.Minute)
+	}
+	if v := os.Getenv("VERIF_C18_BUDGET_S"); v != "" { // development aid on an overloaded machine
+		if n, err := strconv.Atoi(v); err == nil {
+			c.Budget(time.Duration(n) * time.Second)
+		}
 	}
 	c.MaxSamp = 8
 	r := buildRig()
